@@ -95,7 +95,7 @@ func reachesAvoidingEdges(from, to ssa.Instruction, avoid []an.CondEdge) bool {
 }
 
 // c13Commit checks one commit instruction.
-func c13Commit(c *an.Ctx, fn *ssa.Function, what string, commit ssa.Instruction, ignorable func(name string) bool) {
+func c13Commit(c *an.Ctx, rule string, fn *ssa.Function, what string, commit ssa.Instruction, ignorable func(name string) bool) {
 	key := an.FnKey(fn) + " commit: " + what
 	var problems []string
 	for _, ci := range an.Calls(fn) {
@@ -170,9 +170,9 @@ func c13Commit(c *an.Ctx, fn *ssa.Function, what string, commit ssa.Instruction,
 		}
 	}
 	if len(problems) > 0 {
-		c.Bad("C13-R3", key, commit.Pos(), "live state is committed although a step may have failed: %s", strings.Join(problems, "; "))
+		c.Bad(rule, key, commit.Pos(), "live state is committed although a step may have failed: %s", strings.Join(problems, "; "))
 	} else {
-		c.Ok("C13-R3", key, commit.Pos(), "unreachable from every failure edge; every preceding fallible step is checked")
+		c.Ok(rule, key, commit.Pos(), "unreachable from every failure edge; every preceding fallible step is checked")
 	}
 }
 
@@ -625,7 +625,7 @@ func runC13(c *an.Ctx) {
 			continue
 		}
 		for _, in := range ins {
-			c13Commit(c, fn, sp.what, in, ignorable)
+			c13Commit(c, "C13-R3", fn, sp.what, in, ignorable)
 		}
 	}
 	// sc.Err() in Storage.Reset is a method returning error, covered by the generic rule above
